@@ -8,7 +8,7 @@ ap = argparse.ArgumentParser()
 ap.add_argument("prop"); ap.add_argument("patch"); ap.add_argument("demo")
 ap.add_argument("--tier", default="quick"); ap.add_argument("--seeds", default="0"); ap.add_argument("--skip-suite", action="store_true")
 ap.add_argument("--props", default=None, help="comma list of checks to run (default: the property's own)")
-a = ap.parse_args()
+a = ap.parse_args(); a.patch = os.path.abspath(a.patch); a.demo = os.path.abspath(a.demo)
 out = {"prop": a.prop, "patch": a.patch}
 d = tempfile.mkdtemp(prefix=f"ev-{a.prop}-", dir="/tmp"); os.rmdir(d)
 subprocess.run(["git", "-C", "/repo", "worktree", "add", "-q", "--detach", d, "HEAD"], check=True)
